@@ -502,7 +502,11 @@ func c03CliFaults(c *Case) {
 	dir := c.env.Scratch
 	// unreadable inputs: a directory, /proc/self/mem
 	for _, in := range []string{dir, "/proc/self/mem"} {
-		r := RunCli(c.env.Jqawk, []string{"--", c03Prog, in}, nil, dir, 30*time.Second)
+		r := RunCli(c.env.Jqawk, []string{"--", c03Prog, in}, nil, dir, 120*time.Second)
+		if r.TimedOut {
+			c.Inconclusive("binary-watchdog")
+			continue
+		}
 		c.NonTrivial("unreadable:" + in)
 		c.Count("cli_unreadable_inputs")
 		if f := cliFault(r); f != "" {
